@@ -2988,7 +2988,10 @@ class RedunBackendDb(RedunBackend):
         parents = [
             tag_hash
             for (tag_hash,) in self.session.query(Tag.tag_hash).filter(
-                Tag.is_current.is_(True), Tag.entity_id == entity_id, or_(*conditions)
+                # No pair and no key given selects nothing (an empty or_() would select all).
+                Tag.is_current.is_(True),
+                Tag.entity_id == entity_id,
+                or_(False, *conditions),
             )
         ]
 
